@@ -519,6 +519,12 @@ func (ex *Exec) loopEnv(li *loopInfo, st *State) *Env {
 	// parameters are mutable cells inside the body: names resolve to the current cell value, and to the
 	// entry value under old() (see Env.ident)
 	_ = r
+	// "rangeindex" is the hidden counter of THIS loop (a function may have several range loops)
+	if cell, _ := rangeIndexOf(li.head); cell != nil {
+		if v, live := st.cells[cell]; live {
+			env.vars["rangeindex"] = v
+		}
+	}
 	return env
 }
 
@@ -529,6 +535,9 @@ func (ex *Exec) loopHead(li *loopInfo) {
 	entryPC := ex.curPC
 	// 1. invariant holds on entry
 	envIn := ex.loopEnv(li, pre)
+	for _, u := range lc.Uses {
+		ex.useAxiom(u, envIn, entryPC) // instances of manual axioms are also available when the loop is entered
+	}
 	for i, inv := range lc.Invariants {
 		ex.obligeLabel("inv-init", entryPC, envIn.evalBool(inv.Expr), firstPos(li.head), fmt.Sprintf("loop#%d:%s", li.ordinal, invLabel(inv, i)))
 	}
